@@ -295,7 +295,12 @@ def gen_cases(rng, n, tier):
                 mask = [True] * (len(segs) + rng.choice([1, -1, 2]))      # wrong length -> ValueError
                 if len(mask) == len(segs):
                     mask = mask + [True]
-            cases.append({"kind": "subdivide_by_length" + ("_exact" if exact else "_generic"), "exact": exact, "v": pts,
+            # the generic stream is not judged by the model when some len / max_length is within 1e-6 of an integer
+            # (K_C08.parts_decided): such cases are counted under their own kind so that they show in the evidence
+            undecided = (not exact) and max_length > 0 and any(
+                abs(l / max_length - round(l / max_length)) <= 1e-6 for l in lens)
+            cases.append({"kind": "subdivide_by_length" + ("_exact" if exact else "_generic_undecided" if undecided else "_generic"),
+                          "exact": exact, "v": pts,
                           "closed": closed, "max_length": max_length, "mask": mask})
         elif u < 0.85:
             ne = len(segs)
